@@ -860,6 +860,96 @@ def oracle_prog_V(prog, res):
     return None
 
 
+# ---- family M: defaults that are mutable values / non-constant expressions (oracle only:
+#      in-place mutation is heap behaviour, outside the Coq model)
+
+
+def gen_mut_spec(rng):
+    sc = lambda: rng.choice([0, 1, 2, 7, "a", "b1", True, None, 2.5])
+    items = rng.sample(["x", "y", "z", 3, 4, 5, False], 3)
+    return {"list_default": [sc() for _ in range(rng.choice([0, 0, 1, 2]))],
+            "dict_default": {k: sc() for k in rng.sample(["k", "a"], rng.choice([0, 1, 2]))},
+            "items": items, "explicit": rng.random() < 0.5, "depth": rng.choice([0, 0, 1, 2]),
+            "uid_default": rng.random() < 0.6, "use_dict": rng.random() < 0.7}
+
+
+def src_mut(spec):
+    L, D = src_value(spec["list_default"]), src_value(spec["dict_default"])
+    sig = f"flow collect $item $depth=0 $bag={L}"
+    if spec["use_dict"]:
+        sig += f" $d={D}"
+    if spec["uid_default"]:
+        sig += ' $name="t_{uid()}"'
+    lines = [sig,
+             "  send Echo(tag=1, item=$item, depth=$depth, n=len($bag)" + (", m=len($d)" if spec["use_dict"] else "") + ")",
+             "  ($bag.append($item))"]
+    if spec["use_dict"]:
+        lines.append('  ($d.update({"z": $item}))')
+    lines += ["  if $depth > 0", "    await collect($item, $depth - 1)",
+              "  send Echo(tag=2, item=$item, depth=$depth, bag=$bag" + (", d=$d" if spec["use_dict"] else "")
+              + (", name=$name" if spec["uid_default"] else "") + ")",
+              "  return $bag", "", "flow main",
+              f"  $r0 = await collect({src_value(spec['items'][0])}, {spec['depth']})",
+              f"  $r1 = await collect({src_value(spec['items'][1])})"]
+    if spec["explicit"]:
+        lines.append(f'  $r2 = await collect({src_value(spec["items"][2])}, 0, ["given"])')
+    lines += ["  send Echo(tag=3, r0=$r0, r1=$r1" + (", r2=$r2" if spec["explicit"] else "") + ")",
+              "  send Echo(tag=99)", "  match Never()", ""]
+    return "\n".join(lines)
+
+
+def oracle_mut(spec, res):
+    """each instance that omits the argument sees the DECLARED default (an independent value), also
+    in a second conversation of the same process; a non-constant default is evaluated per instance"""
+    L, D = spec["list_default"], spec["dict_default"]
+    names = []
+    for run_no, run in enumerate(res["runs"]):
+        if run.get("crashed") or not any(t == 99 for t, _ in run["echoes"]):
+            return ("mutable-default-program-does-not-complete", f"conversation {run_no}: main did not reach its end ({run.get('crashed')})")
+        inst = 0
+        for t, items in run["echoes"]:
+            e = dict(items)
+            if t == 1:
+                explicit_bag = spec["explicit"] and _pyeq(e.get("item"), spec["items"][2])
+                want_n = 1 if explicit_bag else len(L)
+                if e.get("n") != want_n or (spec["use_dict"] and e.get("m") != len(D)):
+                    if run_no > 0 and inst == 0:
+                        sig = "default-value-leaks-across-conversations"
+                    elif inst > 0:
+                        sig = "omitted-argument-default-shared-between-instances"
+                    else:
+                        sig = "omitted-argument-does-not-receive-declared-default"
+                    return (sig, f"conversation {run_no}, instance {inst} (item={e.get('item')!r}): on entry len($bag)={e.get('n')!r}"
+                            + (f", len($d)={e.get('m')!r}" if spec["use_dict"] else "")
+                            + f"; the declared defaults are {L!r}" + (f" and {D!r}" if spec["use_dict"] else ""))
+                inst += 1
+            elif t == 2:
+                explicit_bag = spec["explicit"] and _pyeq(e.get("item"), spec["items"][2])
+                want = (["given"] if explicit_bag else list(L)) + [e.get("item")]
+                if not same_value(e.get("bag"), want):
+                    return ("omitted-argument-default-shared-between-instances",
+                            f"conversation {run_no}: after its own append the instance with item={e.get('item')!r} has bag={e.get('bag')!r}, expected {want!r}")
+                if spec["use_dict"]:
+                    wd = dict(D)
+                    wd["z"] = e.get("item")
+                    if not (isinstance(e.get("d"), dict) and e["d"] == wd):
+                        return ("omitted-argument-default-shared-between-instances",
+                                f"conversation {run_no}: instance with item={e.get('item')!r} has d={e.get('d')!r}, expected {wd!r}")
+                if spec["uid_default"]:
+                    names.append(e.get("name"))
+            elif t == 3:
+                want = {"r0": list(L) + [spec["items"][0]], "r1": list(L) + [spec["items"][1]]}
+                if spec["explicit"]:
+                    want["r2"] = ["given", spec["items"][2]]
+                for k, w in want.items():
+                    if not same_value(e.get(k), w):
+                        return ("e2e-return-value-not-assigned", f"conversation {run_no}: main got {k}={e.get(k)!r}, expected {w!r}")
+    if spec["uid_default"]:
+        if not all(isinstance(x, str) and x.startswith("t_") for x in names) or len(set(names)) != len(names):
+            return ("non-constant-default-evaluated-once", f"the default \"t_{{uid()}}\" produced {names!r} for {len(names)} instances")
+    return None
+
+
 def gen_prog_R(rng):
     """family R: a recursive flow; every level assigns the same-named local before the inner call
     and echoes it afterwards.  The direct oracle applies (privacy between instances of one flow)."""
@@ -1024,6 +1114,30 @@ def _impl_actref_job(job, sm, v2util, CRE, fl):
             "order_ok": order == [f.uid for f in objs]}
 
 
+def _impl_mut_job(job, sm, v2util, CRE):
+    src = src_mut(job["spec"])
+    runs = []
+    for _ in range(2):           # two conversations in ONE process
+        try:
+            state = v2util.init_state(src)
+        except Exception as e:
+            return {"error": "parse: " + type(e).__name__ + ": " + str(e)[:300], "src": src}
+        crashed = None
+        try:
+            v2util.start_main(state)
+        except sm.VerifStepBudgetExceeded:
+            crashed = "step budget exceeded"
+        except Exception as e:
+            crashed = type(e).__name__ + ": " + str(e)[:200]
+        echoes = []
+        for e in state.outgoing_events:
+            if isinstance(e, dict) and e.get("type") == "Echo":
+                echoes.append([e.get("tag"), [[k, v] for k, v in e.items()
+                                              if k not in ("type", "uid", "event_created_at", "source_uid", "tag") and _plain(v)]])
+        runs.append({"echoes": echoes, "crashed": crashed})
+    return {"runs": runs, "src": src}
+
+
 def _plain(v):
     if v is None or isinstance(v, (bool, int, float, str)):
         return True
@@ -1097,6 +1211,8 @@ def child_main(inp, outp):
         try:
             if job["kind"] == "bind":
                 res.append(_impl_bind_job(job, sm, v2util, CRE))
+            elif job["kind"] == "mut":
+                res.append(_impl_mut_job(job, sm, v2util, CRE))
             elif job["kind"] == "actref":
                 from nemoguardrails.colang.v2_x.runtime import flows as fl
                 res.append(_impl_actref_job(job, sm, v2util, CRE, fl))
@@ -1362,11 +1478,13 @@ def run(tier, seed, replay=None):
     n_G = 40 if tier == "quick" else 400
     n_V = 250 if tier == "quick" else 2500
     n_actref = 120 if tier == "quick" else 1200
+    n_M = 60 if tier == "quick" else 600
 
     # ---- cases: corpus first, then replay, then generated
     bind_cases = []   # (sig, ev)
     prog_cases = []   # prog
     actref_cases = []  # {"sig", "insts", "calls"}
+    mut_cases = []     # spec
     corpus_n = 0
     corpus_dir = os.path.join(C.VERIF, "corpus", PID)
     stored = []
@@ -1378,7 +1496,7 @@ def run(tier, seed, replay=None):
     if replay:
         d = json.load(open(replay))
         stored.append(d.get("replay", d))
-        n_sig = n_A = n_B = n_O4 = n_R = n_G = n_V = n_actref = 0
+        n_sig = n_A = n_B = n_O4 = n_R = n_G = n_V = n_actref = n_M = 0
     for d in stored:
         if d.get("kind") == "bind":
             bind_cases.append((d["sig"], d["ev"]))
@@ -1386,6 +1504,10 @@ def run(tier, seed, replay=None):
             prog_cases.append(d["prog"])
         elif d.get("kind") == "actref":
             actref_cases.append(d["case"])
+        elif d.get("kind") == "mut":
+            mut_cases.append(d["spec"])
+    for _ in range(n_M):
+        mut_cases.append(gen_mut_spec(rng))
     for _ in range(n_actref):
         actref_cases.append(gen_actref_case(rng))
     for _ in range(n_sig):
@@ -1417,6 +1539,7 @@ def run(tier, seed, replay=None):
     jobs += [{"kind": "bind", "sig": j["sig"], "evs": j["evs"]} for j in bind_jobs]
     jobs += [{"kind": "prog", "prog": p} for p in prog_cases]
     jobs += [{"kind": "actref", **c} for c in actref_cases]
+    jobs += [{"kind": "mut", "spec": c} for c in mut_cases]
     impl_res, impl_errs = run_impl(jobs, timeout=600 if tier == "quick" else 3000)
     for e in impl_errs:
         out.add_broken("impl-run:C08", e)
@@ -1430,7 +1553,8 @@ def run(tier, seed, replay=None):
         for i, rr in zip(j["idx"], r["results"]):
             bind_res[i] = rr
     prog_res = impl_res[len(bind_jobs): len(bind_jobs) + len(prog_cases)]
-    actref_res = impl_res[len(bind_jobs) + len(prog_cases):]
+    actref_res = impl_res[len(bind_jobs) + len(prog_cases): len(bind_jobs) + len(prog_cases) + len(actref_cases)]
+    mut_res = impl_res[len(bind_jobs) + len(prog_cases) + len(actref_cases):]
 
     seen = set()
     n_nontrivial = 0
@@ -1551,6 +1675,20 @@ def run(tier, seed, replay=None):
                                f"{len(bad)} disagreements; smallest: {src_sig(case['sig'])} instances={case['insts']} new call={call} impl={rr}")
     dist["activation_reference_lookups"] = act_hist
 
+    # ---- mutable / non-constant defaults (oracle only)
+    n_mut = 0
+    for spec, r in zip(mut_cases, mut_res):
+        if r is None:
+            continue
+        if "error" in r:
+            out.add_broken("impl-run:C08-mutable-default", r["error"] + "\n" + r.get("src", ""))
+            continue
+        n_mut += 1
+        v = oracle_mut(spec, r)
+        if v:
+            out.findings.append(C.Finding(v[0], v[1], {"kind": "mut", "spec": spec, "source": r["src"], "impl": r["runs"]}))
+    dist["mutable_default_programs_oracle_only"] = n_mut
+
     # ---- end to end
     pterms, pkept = [], []
     n_calls = 0
@@ -1640,6 +1778,7 @@ def run(tier, seed, replay=None):
     out.assumptions += [
         "expression evaluation is an arbitrary total function eval : ctx -> expr -> value in the theorems (expressions that raise are outside the model); the correspondence uses literals of every value type, variables, list/dict displays and `$n - 1`",
         "Python heap aliasing of mutable argument values is not modelled (values are copied); a shared context (context=$self.context) IS modelled, by two instances owning the same heap cell",
+        "freshness of default VALUES (each instance that omits an argument gets an independent value, also across conversations in one process; non-constant default expressions are evaluated per instance) is observable only through in-place mutation, i.e. heap behaviour: it is covered by the oracle alone (family M: `($bag.append(..))`, `($d.update(..))`, recursion, `\"t_{uid()}\"` defaults, two conversations in one process), not by the Coq model, where `default_val` is re-evaluated per instance by construction",
         "signatures have distinct identifier parameter names that are not keys the runtime writes itself (flow_id, flow_instance_uid, activated, source_flow_instance_uid, source_head_uid, flow_hierarchy_position, context) and return members distinct from parameters",
         "end-to-end programs are deterministic and single-threaded: callees run until they finish or reach `match Never()`; the big-step interpreter of V2/BindRun.v is validated against the real interpreter on exactly this class (scheduling in general is the business of C05/C09/C10)",
         "floats are quarters (exact); strings avoid quote, backslash, braces and `$` (string interpolation is outside C08)",
